@@ -652,6 +652,22 @@ def corpus_modules(tier):
                           ("T", {"k": "seq", "fields": [field("e", {"k": "ref", "name": "E"}, dflt="def-g")]})])])
     out.append([mod("M", [("T", {"k": "seq", "fields": [field("e", {"k": "enum", "items": ["abc", "def-g"]}, dflt="abc")]})])])
     out.append([mod("M", [("W", U8), ("T", {"k": "seq", "fields": [field("w", {"k": "ref", "name": "W"}, dflt="3")]})])])
+    # DEFAULT of a component whose type is a reference to a type assignment of every leaf kind (the
+    # constant has the newtype's type, not the literal's)
+    for nm, t, lit in (("Flag", BOOL, "TRUE"), ("Flag", BOOL, "FALSE"), ("Lvl", {"k": "int", "lo": -10, "hi": 10}, "-3"),
+                       ("Big", INT, "70000"), ("Ext", {"k": "int", "lo": 0, "hi": 255, "ext": True}, "7")):
+        out.append([mod("M", [(nm, t), ("T", {"k": "seq", "fields": [field("a", BOOL), field("d", {"k": "ref", "name": nm}, dflt=lit)]})])])
+        out.append([mod("M", [(nm, t), ("T", {"k": "seq", "ext": 0, "fields": [field("a", BOOL), field("d", {"k": "ref", "name": nm}, dflt=lit)]})])])
+    # a named CHOICE, used as a component, whose alternatives reference the same (explicitly tagged / untagged)
+    # type assignment more than once: the tag of the CHOICE is looked up through each of them
+    for ctag in ({"tag": "[APPLICATION 3]"}, {}):
+        coord = dict({"k": "int", "lo": -1800, "hi": 1800}, **ctag)
+        pos = {"k": "choice", "alts": [field("latitude", {"k": "ref", "name": "Coordinate"}), field("longitude", {"k": "ref", "name": "Coordinate"}),
+                                       field("height", {"k": "ref", "name": "Coordinate"})]}
+        out.append([mod("M", [("Coordinate", coord), ("Position", pos),
+                              ("Waypoint", {"k": "seq", "fields": [field("name", UTF8), field("at", {"k": "ref", "name": "Position"}),
+                                                                   field("via", {"k": "ref", "name": "Position"}, opt=True)]}),
+                              ("Track", {"k": "seqof", "of": {"k": "ref", "name": "Position"}})])])
     # ENUMERATED DEFAULT whose variant name exercises every rule of the variant mangling (runs of
     # capitals, capital at the end, digits, hyphens): the DEFAULT constant must name the declared variant
     odd = ["plain", "unknownID", "aB", "abCD", "x9Y", "some-THING", "aBC-d", "a-b-c", "iPv6", "uRL", "x2"]
